@@ -217,6 +217,16 @@ Theorem C13_pgr_random_iff : forall (eigvalsh : S3 -> V3) os r,
   (Rn = 1 -> P = 0 /\ G = 0).
 Proof. exact pgr_random_iff. Qed.
 
+(* R = 0 iff all axes of the chosen kind lie in ONE plane (are orthogonal to a common unit vector); the normal
+   is the first eigenvector of any orthonormal eigen-decomposition `e` of the scatter matrix (e.g. LAPACK's) *)
+Theorem C13_pgr_coplanar_iff : forall (eigvalsh : S3 -> V3) os r (e : EV),
+  os <> [] -> Forall unit_rows os ->
+  vals_spec (scatter os r) (eigvalsh (scatter os r)) -> eig_spec (scatter os r) e ->
+  let '(P, G, Rn) := symmetry_pgr eigvalsh os r in
+  (Rn = 0 <-> exists u : V3, dot3 u u = 1 /\ Forall (fun o => dot3 (rowv r o) u = 0) os) /\
+  (Rn = 0 -> Forall (fun o => dot3 (rowv r o) (fst (fst (snd e))) = 0) os).
+Proof. exact pgr_coplanar_iff. Qed.
+
 (* the coaxial index is NOT symmetric in its axes: BA(axis2, axis1) = 1 - BA(axis1, axis2), BA(axis, axis) = 1/2 *)
 Theorem C13_coaxial_swap : forall (eigvalsh : S3 -> V3) os r1 r2,
   os <> [] -> Forall unit_rows os ->
